@@ -115,6 +115,9 @@ def merge(parts):
     return m
 
 
+DURATIONS = []
+
+
 def run_shards(check_id, specs, workers, timeout):
     """Run shard specs in worker subprocesses; returns (partials, failures)."""
     tmp = tempfile.mkdtemp(prefix='pvf_%s_' % check_id)
@@ -152,6 +155,7 @@ def run_shards(check_id, specs, workers, timeout):
                     continue
                 log.close()
                 del procs[i]
+                DURATIONS.append((round(time.time() - t0, 1), i))
                 out = os.path.join(d, 'out.json')
                 if rc == 0 and os.path.exists(out):
                     with open(out) as f:
@@ -296,6 +300,8 @@ def main(argv=None):
     print("%s %s tier=%s seed=%d evaluations=%d distinct=%d wall=%.1fs counters=%s" % (
         pid, verdict, ctx.tier, ctx.seed, merged['evaluations'], merged.get('distinct', 0), wall,
         json.dumps(merged['counters'], sort_keys=True)))
+    if os.environ.get('PVF_DEBUG'):
+        print("shard durations (s, index), slowest first:", sorted(DURATIONS, reverse=True)[:8], "of", len(DURATIONS))
     if nviol:
         seen = {}
         for w in merged['violations']:
